@@ -13,6 +13,12 @@ Reads, from the current source ($VERIF_REPO or /repo),
 * funcnet/coupling_analysis.py  `lag_matrix = numpy.zeros(..., dtype=<T>)` (mutual_information,
                           information_transfer) and `to_cy(lag_matrix, <T>)` (symmetrize_by_absmax)
 
+* climate/partial_correlation.py  `_calculate_correlation` (round 5): the matrix function applied to
+                          the anomalies (`corrcoef` / `cov`), the guard and the two library calls of
+                          the `inv` / `pinv` branch, and the returned expression `- C_inv / norm`
+                          with `norm = sqrt(abs(outer(diag, diag)))`, `diag = C_inv.diagonal()`,
+                          evaluated symbolically entry by entry -> pcorrNumer / pcorrDenomSq
+
 and writes lean/Pyunicorn/Generated/StructC10.lean.  The theorems `lag_dtype_*` / `lag_store_*` of
 Properties/C10.lean are stated about these definitions: a widened / narrowed / unsigned `LAG`, a
 site that uses another type, or another stored expression breaks them (or this translation).
@@ -169,6 +175,105 @@ def py_sites():
     return sites
 
 
+def pcorr_source():
+    """`PartialCorrelationClimateNetwork._calculate_correlation`, entry (i, j) of the returned matrix
+    as numerator / sqrt(denominator-squared) over the entries `P a b` of `C_inv`"""
+    tree = ast.parse(read("climate/partial_correlation.py"))
+    cls = next((n for n in tree.body if isinstance(n, ast.ClassDef)
+                and n.name == "PartialCorrelationClimateNetwork"), None)
+    fn = next((n for n in (cls.body if cls else []) if isinstance(n, ast.FunctionDef)
+               and n.name == "_calculate_correlation"), None)
+    if fn is None:
+        raise Untranslatable("partial_correlation.py: _calculate_correlation not found")
+    env, branch, ret = {}, None, None
+    for st in fn.body:
+        if isinstance(st, ast.Assign) and len(st.targets) == 1 and isinstance(st.targets[0], ast.Name):
+            env[st.targets[0].id] = st.value
+        elif isinstance(st, ast.If) and branch is None:
+            def single(body):
+                if (len(body) == 1 and isinstance(body[0], ast.Assign) and len(body[0].targets) == 1
+                        and isinstance(body[0].targets[0], ast.Name)):
+                    return body[0].targets[0].id, ast.unparse(body[0].value)
+                raise Untranslatable("partial_correlation.py: branch of the inverse is not a single assignment")
+            try:
+                (t1, c1), (t2, c2) = single(st.body), single(st.orelse)
+            except Untranslatable:
+                continue        # e.g. the `if self.silence_level <= 1: print(...)` at the top
+            if t1 != t2:
+                raise Untranslatable("partial_correlation.py: the two branches assign different names")
+            branch = (t1, ast.unparse(st.test), c1, c2)
+        elif isinstance(st, ast.Return):
+            ret = st.value
+    if branch is None or ret is None or "C" not in env:
+        raise Untranslatable("partial_correlation.py: _calculate_correlation has not the expected statements")
+    inv_name = branch[0]
+    # the matrix that is inverted: np.<fn>(anomaly.transpose()) [.astype(...)]
+    m = env["C"]
+    while isinstance(m, ast.Call) and isinstance(m.func, ast.Attribute) and m.func.attr == "astype":
+        m = m.func.value
+    if not (isinstance(m, ast.Call) and isinstance(m.func, ast.Attribute) and isinstance(m.func.value, ast.Name)
+            and m.func.value.id in ("np", "numpy") and len(m.args) == 1
+            and ast.unparse(m.args[0]) in ("anomaly.transpose()", "anomaly.T")):
+        raise Untranslatable(f"partial_correlation.py: C = {ast.unparse(env['C'])}")
+    matfn = m.func.attr
+
+    def is_np(e, name):
+        return (isinstance(e, ast.Call) and isinstance(e.func, ast.Attribute) and e.func.attr == name
+                and isinstance(e.func.value, ast.Name) and e.func.value.id in ("np", "numpy"))
+
+    def vec(e, idx, depth=0):
+        """entry `idx` of a vector expression"""
+        if depth > 8:
+            raise Untranslatable("partial_correlation.py: cyclic definitions")
+        if isinstance(e, ast.Subscript) and ast.unparse(e.slice) == ":":
+            return vec(e.value, idx, depth + 1)
+        if (isinstance(e, ast.Call) and isinstance(e.func, ast.Attribute) and e.func.attr == "diagonal"
+                and not e.args and isinstance(e.func.value, ast.Name) and e.func.value.id == inv_name):
+            return f"P {idx} {idx}"
+        if is_np(e, "diag") and len(e.args) == 1 and isinstance(e.args[0], ast.Name) and e.args[0].id == inv_name:
+            return f"P {idx} {idx}"
+        if isinstance(e, ast.Name) and e.id in env and e.id != inv_name:
+            return vec(env[e.id], idx, depth + 1)
+        raise Untranslatable(f"partial_correlation.py: vector expression {ast.unparse(e)!r}")
+
+    def ent(e, depth=0):
+        """entry (i, j) of a matrix expression: (expression, is-a-square-root-of)"""
+        if depth > 8:
+            raise Untranslatable("partial_correlation.py: cyclic definitions")
+        if isinstance(e, ast.Name):
+            if e.id == inv_name:
+                return "(P i j)", False
+            if e.id in env:
+                return ent(env[e.id], depth + 1)
+        if isinstance(e, ast.UnaryOp) and isinstance(e.op, ast.USub):
+            x, r = ent(e.operand, depth + 1)
+            if r:
+                raise Untranslatable("partial_correlation.py: negated square root")
+            return f"(-{x})", False
+        if is_np(e, "sqrt") and len(e.args) == 1:
+            x, r = ent(e.args[0], depth + 1)
+            if r:
+                raise Untranslatable("partial_correlation.py: nested square roots")
+            return x, True
+        if ((isinstance(e, ast.Call) and isinstance(e.func, ast.Name) and e.func.id == "abs")
+                or is_np(e, "abs") or is_np(e, "absolute")) and len(e.args) == 1:
+            x, r = ent(e.args[0], depth + 1)
+            if r:
+                raise Untranslatable("partial_correlation.py: abs of a square root")
+            return f"(qabs {x})", False
+        if is_np(e, "outer") and len(e.args) == 2:
+            return f"(({vec(e.args[0], 'i')}) * ({vec(e.args[1], 'j')}))", False
+        raise Untranslatable(f"partial_correlation.py: matrix expression {ast.unparse(e)!r}")
+
+    if not (isinstance(ret, ast.BinOp) and isinstance(ret.op, ast.Div)):
+        raise Untranslatable(f"partial_correlation.py: return {ast.unparse(ret)}")
+    num, r1 = ent(ret.left)
+    den, r2 = ent(ret.right)
+    if r1 or not r2:
+        raise Untranslatable("partial_correlation.py: returned expression is not <matrix> / sqrt(<matrix>)")
+    return matfn, branch, num, den, ast.unparse(ret), ast.unparse(env.get("norm", ret.right))
+
+
 def main():
     (bp, sp), chain_py = py_lag()
     (bc, sc), chain_c = pxd_lag()
@@ -196,6 +301,19 @@ def main():
     for txt, e in mirrors:
         L += [f"/-- `_symmetrize_by_absmax`: `lag_matrix{txt}` (`l` = the cell read) -/",
               f"def symLagExpr (l : Int) : Int := {e}", ""]
+    matfn, (inv_name, guard, call1, call2), num, den, ret_txt, norm_txt = pcorr_source()
+    L += ["/-! ### `PartialCorrelationClimateNetwork._calculate_correlation` (round 5) -/", "",
+          "def qabs (x : Rat) : Rat := if x < 0 then -x else x", "",
+          "/-- the matrix function applied to `anomaly.transpose()` -/",
+          f'def pcorrMatrixFn : String := "{matfn}"', "",
+          f"/-- `if {guard}: {inv_name} = {call1}  else: {inv_name} = {call2}` -/",
+          f'def pcorrGuard : String := "{guard}"',
+          f'def pcorrThen : String := "{call1}"',
+          f'def pcorrElse : String := "{call2}"', "",
+          f"/-- `return {ret_txt}`, entry `(i, j)`: the numerator over the entries `P a b` of `{inv_name}` -/",
+          f"def pcorrNumer (P : Nat → Nat → Rat) (i j : Nat) : Rat := {num}", "",
+          f"/-- the denominator is the square root of this (`norm = {norm_txt}`) -/",
+          f"def pcorrDenomSq (P : Nat → Nat → Rat) (i j : Nat) : Rat := {den}", ""]
     L += ["end Pyunicorn.Generated.StructC10", ""]
     os.makedirs(os.path.dirname(OUT), exist_ok=True)
     with open(OUT, "w") as f:
